@@ -11,6 +11,7 @@ Record runcase := {
   rc_script : list apicall;
   rc_react : list (option nat);  (* k-th notification to function 0: the engine completes the j-th
                                     pending service from inside it (NetModel only) *)
+  rc_react_all : bool;           (* reactions also inside finished notifications *)
   rc_mutate : nat;               (* hostile engine mode (NetModel only; RefSem never shares lists) *)
   rc_test_ids : bool
 }.
